@@ -19,7 +19,7 @@ let run_walk_a (id : string) (v : view) (steps : step list) (obs : Buffer.t) : u
       let it = regs.(s.r) in
       let it' =
         match s.op with
-        | "inc" -> it_inc it | "dec" -> it_dec it
+        | "inc" | "pinc" -> it_inc it | "dec" | "pdec" -> it_dec it
         | "add" | "plus" -> it_add it (z s.arg) | "sub" | "minus" -> it_sub it (z s.arg)
         | "set" | "cpy" | "fset" -> regs.(s.arg)
         | "end" -> e | "begin" -> b
@@ -55,7 +55,7 @@ let run_walk_e (id : string) (v : view) (steps : step list) (obs : Buffer.t) : u
       let it = regs.(s.r) in
       let it' =
         match s.op with
-        | "inc" -> e_inc it | "dec" -> e_dec it
+        | "inc" | "pinc" -> e_inc it | "dec" | "pdec" -> e_dec it
         | "add" | "plus" -> e_add it (z s.arg) | "sub" | "minus" -> e_sub it (z s.arg)
         | "set" | "fset" -> e_assign it regs.(s.arg) | "cpy" -> regs.(s.arg)
         | "end" -> e_assign it e | "begin" -> e_assign it b
@@ -92,11 +92,11 @@ let gen_walk (size : int) (nsteps : int) : step list * string list =
         let p = pos.(r) in
         let rec choose tries =
           let op =
-            weighted [ (5, "inc"); (4, "dec"); (5, "add"); (5, "sub"); (2, "plus"); (2, "minus"); (3, "set"); (2, "fset"); (1, "cpy"); (2, "end"); (1, "begin") ] in
+            weighted [ (4, "inc"); (3, "dec"); (2, "pinc"); (2, "pdec"); (5, "add"); (5, "sub"); (2, "plus"); (2, "minus"); (3, "set"); (2, "fset"); (1, "cpy"); (2, "end"); (1, "begin") ] in
           let ok, arg, p' =
             match op with
-            | "inc" -> (p + 1 <= size, 0, p + 1)
-            | "dec" -> (p - 1 >= 0, 0, p - 1)
+            | "inc" | "pinc" -> (p + 1 <= size, 0, p + 1)
+            | "dec" | "pdec" -> (p - 1 >= 0, 0, p - 1)
             | "add" | "plus" -> let t = rnd_range 0 size in (true, t - p, t)       (* may be negative or zero *)
             | "sub" | "minus" -> let t = rnd_range 0 size in (true, p - t, t)
             | "set" | "cpy" | "fset" -> let s = rnd 3 in (true, s, pos.(s))
